@@ -265,6 +265,9 @@ class QGuard:
 
 def forall(lo, hi, fn, hints=()):
     if is_sym(lo) or is_sym(hi):
+        d = z3.simplify(hi - lo)
+        if z3.is_int_value(d) and d.as_long() <= 0:
+            return True
         return QForall(lo, hi, fn, hints)
     for k in range(lo, hi):
         r = fn(k)
@@ -364,3 +367,42 @@ def occ(text, s, p):
     if is_sym(text) or is_sym(s) or is_sym(p):
         return OccP(text, s, p)
     return 0 <= p and p + len(s) <= len(text) and text[p:p + len(s)] == s
+
+
+# ---- regular expressions (assumed contract of re.Pattern.search) -----------------------------------
+if z3 is not None:
+    ReFind = z3.Function('ReFind', Val, z3.StringSort(), z3.IntSort(), z3.IntSort())     # start of the match or -1
+    ReMatch = z3.Function('ReMatch', Val, z3.StringSort(), z3.IntSort(), Val)            # the match object
+    MStart = z3.Function('MStart', Val, z3.IntSort())
+    MEnd = z3.Function('MEnd', Val, z3.IntSort())
+
+
+def re_find(r, buf, pos):
+    """Start of the match r.search(buf, pos) selects, or -1."""
+    if is_sym(r) or is_sym(buf) or is_sym(pos):
+        return ReFind(r, buf, pos)
+    m = r.search(buf, pos)
+    return -1 if m is None else m.start()
+
+
+def re_match_start(m):
+    return MStart(m) if is_sym(m) else m.start()
+
+
+def re_match_end(m):
+    return MEnd(m) if is_sym(m) else m.end()
+
+
+def re_match_of(r, buf, pos):
+    """The match object for (r, buf, pos); concretely two searches give equal spans, not identical objects."""
+    if is_sym(r) or is_sym(buf) or is_sym(pos):
+        return ReMatch(r, buf, pos)
+    return r.search(buf, pos)
+
+
+def same_match(a, b):
+    if is_sym(a) or is_sym(b):
+        return a == b
+    if a is None or b is None:
+        return a is b
+    return a is b or (a.re is b.re and a.string is b.string and a.span() == b.span() and a.pos == b.pos)
